@@ -280,6 +280,7 @@ func runC13(p *core.Prog, r *core.Result) {
 		"R13.6 evaluating a target does not write into the record it was loaded with: the map that collects the dependencies' current stamps is created by the evaluation (make / a literal on every path), and no map update or delete in Evaluate's dependency code has a map taken from Target.info() as its subject - the record's Dependencies map is shared with the target's in-memory record, so updating it in place makes a dry run erase the evidence (a stale recorded stamp) that the next run on the same Project needs to find the target out of date",
 		"R13.7 the dry run and the real build decide on the same project: every command of cmd/dawn that goes on to Project.Run / Project.Watch loads the project with the index argument constantly false (never with the dry-run flag): targets loaded from the saved index know nothing of edited target bodies, always=True, generated sources or flag arguments, so a dry run decided on them does not predict the real build",
 		"R13.8 the real build attempts what the dry run reports, apart from what is downstream of a failure: in package runner the invocation of Target.Evaluate is conditional on nothing but the outcome of loading that very target - a condition on state of the whole run (a flag set when some other target fails) makes the real build skip out-of-date targets that do not depend on the failed one",
+		"R13.9 a dry run never changes what the next run does: Target.upToDate() writes neither sourceFile.oldSum nor function.oldEnv (the recorded sides of the comparisons are committed by load, evaluate and setInfo only) - a check that already remembers what it saw lets the run after a dry run, on the same Project, find an edited source up to date",
 		"R13.3 the dry-run flag is assigned on every path of RunOptions.apply (it cannot leak into the next run)",
 		"R13.4 'evaluating' is reported before the dry-run test",
 	}
@@ -340,6 +341,7 @@ func runC13(p *core.Prog, r *core.Result) {
 	checkRecordNotWrittenThrough(p, r, m, "R13.6")
 	checkBuildLoadsBuildFiles(p, r, "R13.7")
 	checkEvaluateUnconditional(p, r, "R13.8")
+	checkVerdictDoesNotCommit(p, r, "R13.9")
 
 	// R13.2
 	impls := targetImpls(p, "evaluate")
